@@ -262,9 +262,15 @@ func hsSitesOf(fn string, fd *ast.FuncDecl) ([]*hsSite, error) {
 			return
 		}
 		cur.use, cur.target = use, target
+		if target == "_" {
+			// the digest is computed and thrown away: the site stays "unused"
+			cur = nil
+			return
+		}
 		f, ok := hsFields[fn+"|"+ctx+"|"+use+"|"+target]
 		if !ok {
-			werr = fmt.Errorf("%s: digest %s %q is not a known message field", fn, use, target)
+			// a digest stored into / compared with something the model does not know: kept as a site of
+			// field `other` (the model then has no check / no digest there, and its theorems stop proving)
 			f = "other"
 		}
 		cur.field = f
